@@ -88,6 +88,10 @@ theorem post_evalIndexAssignment {st : St} (hI : Inv st) (which : Node) {index v
     (hi : okObj st.frames.size index = true) (hv : okObj st.frames.size value = true) :
     Post (evalIndexAssignment which index value) st OkO := by
   unfold evalIndexAssignment
+  refine Post.bind (post_valueOf hI hi) ?_
+  rintro index s0 hI0 _ ⟨rfl, hi, _⟩
+  refine Post.bind (post_valueOf hI0 hv) ?_
+  rintro value st hI _ ⟨rfl, hv, _⟩
   split
   · next id =>
     refine Post.bind_read (runM_curEnv st) ?_
@@ -151,6 +155,20 @@ theorem post_deleteMapEntry {st : St} (hI : Inv st) (left : Node) (index : Obj) 
           exact post_errOr hIs3 ho (by simp [okObj])
       · exact Post.pure hIs okObj_err
   · exact Post.pure hI okObj_err
+
+theorem post_derefList : ∀ (l : List Obj) {st : St} (_ : Inv st) (_ : okList st.frames.size l = true),
+    Post (derefList l) st (fun r s => s = st ∧ okList st.frames.size r = true)
+  | [], st, hI, _ => by
+    unfold derefList
+    exact Post.pure hI ⟨rfl, by simp [okList]⟩
+  | x :: xs, st, hI, hl => by
+    unfold derefList
+    simp only [okList, Bool.and_eq_true] at hl
+    refine Post.bind (post_valueOf hI hl.1) ?_
+    rintro v s hIs _ ⟨rfl, hv, _⟩
+    refine Post.bind (post_derefList xs hIs hl.2) ?_
+    rintro vs s' hIs' _ ⟨rfl, hvs⟩
+    exact Post.pure hIs' ⟨rfl, by simp [okList, hv, hvs]⟩
 
 /-- a cache hit returns a well scoped result -/
 theorem post_cacheGet {st : St} (hI : Inv st) (key : String) (args : List Obj) :
